@@ -72,7 +72,11 @@ def func_decl(f):
 AUX = "SCHEMA aux;\nTYPE remote_t = REAL;\nEND_TYPE;\nENTITY remote_e;\n  r1 : remote_t;\nEND_ENTITY;\nEND_SCHEMA;\n"
 
 
-def render(s, extra_head="", extra_body=""):
+AUX3 = ("SCHEMA aux;\nUSE FROM aux2;\n%sEND_SCHEMA;\n\nSCHEMA aux2;\nTYPE remote_t = REAL;\nEND_TYPE;\nENTITY remote_e;\n  r1 : remote_t;\n"
+        "END_ENTITY;\nEND_SCHEMA;\n")
+
+
+def render(s, extra_head="", extra_body="", aux_body=""):
     out = ["SCHEMA %s;\n" % s["name"]]
     if s.get("aux"):
         out.append("USE FROM aux (remote_e);\nREFERENCE FROM aux (remote_t);\n")
@@ -86,8 +90,10 @@ def render(s, extra_head="", extra_body=""):
     out.append(extra_body)
     out.append("END_SCHEMA;\n")
     txt = "\n".join(x for x in out if x)
-    if s.get("aux"):
-        txt += "\n" + AUX
+    if s.get("aux3"):
+        txt += "\n" + AUX3 % aux_body
+    elif s.get("aux"):
+        txt += "\n" + AUX.replace("END_SCHEMA;", aux_body + "END_SCHEMA;")
     return txt
 
 
@@ -98,6 +104,11 @@ def mutate(s, m):
     E = s["ents"]
     head = body = ""
     post = None
+    if m.get("pos") == "in_used_schema":
+        aux_body = {"undef_type": "ENTITY broken;\n  x : nosuch_t;\nEND_ENTITY;\n",
+                    "undef_supertype": "ENTITY broken\n  SUBTYPE OF (nosuch_e);\n  x : INTEGER;\nEND_ENTITY;\n",
+                    "select_cycle": "TYPE s1 = SELECT (s2);\nEND_TYPE;\nTYPE s2 = SELECT (s1);\nEND_TYPE;\n"}[cl]
+        return render(s, "", "", aux_body)
     if cl == "syntax_semicolon":
         post = lambda t: t.replace("%s : " % E[at - 1]["attrs"][0]["name"], "%s  " % E[at - 1]["attrs"][0]["name"], 1)
     elif cl == "syntax_keyword":
